@@ -12,6 +12,7 @@ use cairo_lang_lowering::optimizations::config::Optimizations;
 use cairo_lang_sierra_generator::db::SierraGenGroup;
 use cairo_lang_sierra_generator::replace_ids::replace_sierra_ids_in_program;
 
+pub mod disk;
 pub mod shape;
 
 /// The compiler checkout under test: `VERIF_REPO` (set by lib/seedeval.sh for scratch worktrees) or /repo.
